@@ -29,6 +29,7 @@ def run(ctx):
     # random variant: keep frequencies against the binomial acceptance region, decided by TLC
     rs = [{"kind": "random", "loss": l, "reps": 400 if q else 1500} for l in
           ([0, 1, 2, 3, 4], [2, 2, 2, 2], [0, 4, 4, 1], [1, 1, 3], [0, 1])]
+    rs += [dict(r, seq=True) for r in rs]          # the same loss vectors as consecutive steps of one sampler object
     rt = ctx.drive("c15r", rs, shards=len(rs))
     ctx.validate("Trace_C15R", rt, shards=1)
     ctx.rule = RULE
